@@ -55,7 +55,7 @@ func genC11(rt *rapid.T) core.Scenario {
 		sc.L = rapid.IntRange(0, 12).Draw(rt, "Lsmall")
 	}
 	sc.From = rapid.IntRange(0, sc.L).Draw(rt, "from")
-	faults := []string{"none", "cb-error", "cancel-before", "cancel-in-cb", "read-fail"}
+	faults := []string{"none", "cb-error", "cancel-before", "cancel-in-cb", "cancel-and-error-in-cb", "read-fail"}
 	if sc.Store.Kind == "mem" && !sc.Store.HideStreamer {
 		faults = append(faults, "stream-row-fail")
 	}
@@ -63,7 +63,7 @@ func genC11(rt *rapid.T) core.Scenario {
 		faults = append(faults, "sql-next", "sql-next", "sql-query", "sql-close")
 	}
 	if sc.Store.Kind == "ds" {
-		faults = append(faults, "net-lost-request", "net-lost-response")
+		faults = append(faults, "net-lost-request", "net-lost-response", "net-delay-past-deadline")
 	}
 	sc.Fault = rapid.SampledFrom(faults).Draw(rt, "fault")
 	sc.K = rapid.IntRange(0, sc.L+1).Draw(rt, "k")
@@ -117,7 +117,7 @@ func (sc *C11Scenario) Execute(t *testing.T) *core.Outcome {
 		}
 		want := sc.L - sc.From
 		rctx, cancel := context.WithCancel(ctx)
-		defer cancel()
+		defer func() { cancel() }()
 		// arm the fault
 		switch sc.Fault {
 		case "cancel-before":
@@ -135,6 +135,12 @@ func (sc *C11Scenario) Execute(t *testing.T) *core.Outcome {
 		case "net-lost-request", "net-lost-response":
 			srv := env.servers["main"]
 			srv.GetFaults[srv.nGet+sc.K%3] = sc.Fault[4:]
+		case "net-delay-past-deadline":
+			// the replay context has a 10 ms deadline; the j-th GET is held for 50 ms of simulated time
+			srv := env.servers["main"]
+			srv.DelayGet[srv.nGet+sc.K%3] = 50 * time.Millisecond
+			cancel()
+			rctx, cancel = context.WithTimeout(ctx, 10*time.Millisecond)
 		}
 		var got []int
 		cbErr := errors.New("callback failed")
@@ -159,10 +165,14 @@ func (sc *C11Scenario) Execute(t *testing.T) *core.Outcome {
 				erred = true
 				return cbErr
 			}
-			if sc.Fault == "cancel-in-cb" && k == sc.K {
+			if (sc.Fault == "cancel-in-cb" || sc.Fault == "cancel-and-error-in-cb") && k == sc.K {
 				cancelledAt = len(got)
 				cancel()
 				simrt.Settle() // database/sql reacts to the cancellation in a goroutine of its own: let it finish first
+				if sc.Fault == "cancel-and-error-in-cb" {
+					erred = true
+					return cbErr
+				}
 			}
 			return nil
 		})
@@ -172,7 +182,7 @@ func (sc *C11Scenario) Execute(t *testing.T) *core.Outcome {
 			fired += v
 		}
 		if srv := env.servers["main"]; srv != nil {
-			fired += srv.Fired["lost-request"] + srv.Fired["lost-response"]
+			fired += srv.Fired["lost-request"] + srv.Fired["lost-response"] + srv.Fired["request-delayed"]
 		}
 		if fired > 0 || erred || cancelledAt >= 0 || sc.Fault == "cancel-before" {
 			out.Fault(sc.Fault)
@@ -274,14 +284,14 @@ func c11Grid(tier string, yield func(core.Scenario)) string {
 		if st.HideStreamer || st.Kind == "ds" {
 			batches = []int{0, 1, 2, 3}
 		}
-		faults := []string{"none", "cb-error", "cancel-before", "cancel-in-cb", "read-fail"}
+		faults := []string{"none", "cb-error", "cancel-before", "cancel-in-cb", "cancel-and-error-in-cb", "read-fail"}
 		switch {
 		case st.Kind == "mem" && !st.HideStreamer:
 			faults = append(faults, "stream-row-fail")
 		case st.Kind == "sqlite":
 			faults = append(faults, "sql-next", "sql-query", "sql-close")
 		case st.Kind == "ds":
-			faults = append(faults, "net-lost-request", "net-lost-response")
+			faults = append(faults, "net-lost-request", "net-lost-response", "net-delay-past-deadline")
 		}
 		for _, b := range batches {
 			for L := 0; L <= maxL; L++ {
